@@ -38,6 +38,25 @@ func TestC08(t *testing.T) {
 		}
 		identical := rapid.IntRange(0, 5).Draw(rt, "identical") == 0
 		if identical {
+			if rapid.Bool().Draw(rt, "collisions") {
+				// blocks that share a weak hash inside one build: near-duplicates (+1,-2,+1), an empty
+				// file (placeholder hash with weak hash 0) next to blocks of an even constant byte
+				base := Bytes(rapid.Uint64().Draw(rt, "colseed"), 2*BlockSize+rapid.IntRange(0, 5000).Draw(rt, "coltail"))
+				if nd, ok := WeakCollide(base, rapid.IntRange(0, len(base)-3).Draw(rt, "coloff")); ok {
+					pair.Old["col/a.bin"], pair.Old["col/b.bin"] = &Entry{Kind: KFile, Data: base}, &Entry{Kind: KFile, Data: nd}
+				}
+				pair.Old["col/0empty"] = &Entry{Kind: KFile, Data: []byte{}}
+				fill := make([]byte, 2*BlockSize+100)
+				for i := range fill {
+					fill[i] = rapid.SampledFrom([]byte{0, 2, 6}).Draw(rt, "colfill")
+					if i > 0 {
+						fill[i] = fill[0]
+					}
+				}
+				pair.Old["col/fill.bin"] = &Entry{Kind: KFile, Data: fill}
+				pair.Old.Normalize()
+				Ev.Probe("identical_builds_with_weak_hash_collisions_inside")
+			}
 			pair.New = pair.Old.Clone()
 			pair.Meta = map[string]FileMeta{}
 			for _, p := range pair.New.Files() {
